@@ -23,7 +23,7 @@ import (
 	"io/ioutil"
 	"net/http"
 	"strings"
-	"sync/atomic"
+	"sync"
 
 	"github.com/golang/snappy"
 )
@@ -121,27 +121,42 @@ func CompressRequest(request *http.Request, acceptEncoding string) error {
 	return nil
 }
 
-// Wrap a reader and block all reads once Close() is called
+// Wrap a reader and block all reads once Close() is called. Close waits for a
+// read that is in progress, so that when it returns the underlying reader is
+// guaranteed not to be touched again: a request that is retried rewinds and
+// re-reads the same file, and a late read by the previous attempt would move
+// the file position under it.
 type readBlocker struct {
 	io.Reader
-	closed uint32
+	mu     sync.Mutex
+	closed bool
 }
 
 func (r *readBlocker) Read(d []byte) (int, error) {
-	if atomic.LoadUint32(&r.closed) != 0 {
+	r.mu.Lock()
+	defer r.mu.Unlock()
+	if r.closed {
 		return 0, errors.New("stream is closed")
 	}
 	return r.Reader.Read(d)
 }
 
 func (r *readBlocker) Close() error {
+	r.mu.Lock()
+	defer r.mu.Unlock()
 	if c, ok := r.Reader.(io.Closer); ok {
 		if err := c.Close(); err != nil {
 			return err
 		}
 	}
-	atomic.StoreUint32(&r.closed, 1)
+	r.closed = true
 	return nil
+}
+
+// BlockReads wraps r so that no read reaches it once Close has returned. Close
+// does not close r itself.
+func BlockReads(r io.Reader) io.ReadCloser {
+	return &readBlocker{Reader: struct{ io.Reader }{r}}
 }
 
 type alsoClose struct {
